@@ -142,7 +142,7 @@ func runC16(c *Ctx, r *Report) {
 			fmt.Sprintf("bounded merge shape broken: suffix-slice=%v linearisation-from-values()=%v computed-after-unbounded-merge=%v", suffix, vcall != nil, after))
 	}
 	// ---- R-C16.3: every success return after the lock passes the bound test
-	r.Doc("R-C16.3", "every success return of Join reached after its lock is taken has passed the test of the size bound (the truncation cannot be skipped)")
+	r.Doc("R-C16.3", "every success return of Join reached after its lock is taken either knows the size bound to be negative or has replaced the entry index by the truncated one (the truncation cannot be skipped, 0 is a bound)")
 	r.Doc("R-C16.6", "the list the truncated log is rebuilt from holds at most size entries, for every size ≥ 0 (0 keeps nothing)")
 	{
 		sfj := p.SSAFunc(join)
@@ -208,9 +208,28 @@ func runC16(c *Ctx, r *Report) {
 		})
 	}
 	jf.Edge = func(cond ast.Expr, taken bool, f Facts) {
-		ast.Inspect(cond, func(m ast.Node) bool {
-			if id, ok := m.(*ast.Ident); ok && p.ObjOf(join, id) == sizeObj {
+		// the path is done with the bound when it knows the bound to be negative (no bound) …
+		for _, a := range splitCond(cond, taken) {
+			nc, ok := p.normalizeCmp(join, a, func(e ast.Expr) bool {
+				id, ok := ast.Unparen(e).(*ast.Ident)
+				return ok && p.ObjOf(join, id) == sizeObj
+			})
+			if ok && nc.impliesNegative() {
 				f["boundTested"] = true
+			}
+		}
+	}
+	jfNode := jf.Node
+	jf.Node = func(n ast.Node, f Facts) {
+		jfNode(n, f)
+		// … or when it has replaced the entry index (the truncation; one path fact for both cases)
+		walkNoLit(n, func(nd ast.Node) bool {
+			if as, ok := nd.(*ast.AssignStmt); ok && f["locked"] {
+				for _, l := range as.Lhs {
+					if v, _ := p.FieldSel(join, l); v == entriesF {
+						f["boundTested"] = true
+					}
+				}
 			}
 			return true
 		})
@@ -224,7 +243,7 @@ func runC16(c *Ctx, r *Report) {
 		if isNil, hasErr := errResultIsNil(p, join, ret); hasErr && isNil {
 			nsr++
 			r.Check(at["boundTested"], "R-C16.3", r.Key("R-C16.3", join, "success-return", ""), ret.Pos(),
-				"the size bound is examined on every path to this success return", "Join can return success after taking its lock without ever examining the size bound: a bounded merge that brings nothing new (or takes this shortcut) leaves the log longer than the bound")
+				"every path to this success return knows the bound to be negative or has replaced the entry index by the truncated one", "Join can return success after taking its lock on a path that neither knows the size bound to be negative nor has truncated the log: a bounded merge that brings nothing new, takes a shortcut, or has a bound the test does not count as one (0) leaves the log longer than the bound")
 		}
 	})
 	r.Floor("R-C16.3", "success returns of Join after the lock", nsr, 1)
